@@ -52,6 +52,14 @@ def main():
     out = os.path.join(VERIF, "seeded", name)
     meta = {"property": pid, "variant": which, "agent_report": rep, "ran": []}
 
+    phase = "both"
+    if "--confirm-only" in args:
+        phase = "confirm"
+    if "--checks-only" in args:
+        phase = "checks"
+        meta = json.load(open(os.path.join(out, "meta.json")))
+        meta["ran"] = []
+        return run_checks(meta, out, diff, demo, checks, tier, name)
     # ---- 1. confirmation in a scratch worktree
     wt = "/tmp/ev_%s_%s%s" % (pid, rnd, which)
     sh("git -C /repo worktree remove --force %s" % wt)
@@ -68,7 +76,7 @@ def main():
         meta["repo_tests_with_patch"] = o.strip()
         meta["repo_tests_pass_with_patch"] = ("test result: ok" in o and "FAILED" not in o)
         # demo with the patch: point its dependency at the scratch worktree
-        demo_copy = "/tmp/ev_demo_%s_%s" % (pid, which)
+        demo_copy = "/tmp/ev_demo_%s_%s%s" % (pid, rnd, which)
         shutil.rmtree(demo_copy, ignore_errors=True)
         shutil.copytree(demo, demo_copy, ignore=shutil.ignore_patterns("target"))
         for root, _, files in os.walk(demo_copy):
@@ -83,7 +91,7 @@ def main():
         if "force-32bits" in json.dumps(rep):
             meta["note_flags"] = "agent mentions force-32bits"
         env = {"CARGO_TARGET_DIR": demo_copy + "/target"}
-        runline = os.environ.get("SEED_DEMO_CMD") or "cargo run --offline -q 2>&1 | tail -5"
+        runline = os.environ.get("SEED_DEMO_CMD") or "cargo run --offline -q > .demo_out 2>&1; rc=$?; tail -5 .demo_out; exit $rc"
         rc1, o1 = sh("timeout 900 sh -c '%s'" % runline.replace("'", "'\\''"), cwd=demo_copy, env=env)
         meta["demo_with_patch"] = {"rc": rc1, "tail": o1[-400:]}
         sh("git checkout -- .", cwd=wt)
@@ -95,6 +103,12 @@ def main():
         sh("git -C /repo worktree remove --force %s" % wt)
         shutil.rmtree(wt, ignore_errors=True)
 
+    if phase == "confirm":
+        return finish(meta, out, diff, demo, None)
+    return run_checks(meta, out, diff, demo, checks, tier, name)
+
+
+def run_checks(meta, out, diff, demo, checks, tier, name):
     # ---- 2. run the checks against /repo with the patch applied, undo straight afterwards
     rc, o = sh("git -C /repo status --porcelain")
     assert o.strip() == "", "/repo has local edits: " + o
